@@ -235,6 +235,7 @@ class LiteralProvider(LoaderProvider, DumperProvider):
         return mediator.cached_call(
             self._make_loader,
             cases=norm.args,
+            cases_types=tuple(map(type, norm.args)),
             bytes_cases=bytes_cases,
             strict_coercion=strict_coercion,
             enum_loaders=enum_loaders,
@@ -246,6 +247,7 @@ class LiteralProvider(LoaderProvider, DumperProvider):
         self,
         *,
         cases: Sequence[Any],
+        cases_types: Sequence[type] = (),  # only a part of the cache key: ``(0, 1) == (False, True)``
         strict_coercion: bool,
         enum_loaders: Sequence[Loader],
         allowed_values_repr: Collection[str],
